@@ -4,7 +4,7 @@ import Verif.Model.Css
 -/
 set_option maxRecDepth 100000
 namespace Verif.Proofs.Css
-open Verif.Spec.CssValue Verif.Model.Css Verif.Gen.C04Tables
+open Verif.Spec.CssValue Verif.Model.Css Verif.Gen.C04Tables Verif.Model.CssNum
 
 /-! ## zero units -/
 
@@ -823,6 +823,592 @@ theorem writer_joined (p : Tok) (r : List Tok) (hp : TokShape p) (hr : ∀ t ∈
             · right
               exact hns ⟨hsa', hcm⟩
         simpa using Joined.tight (writeArg p) (writeArg t) (r.map writeArg) _ hsafe ih'
+
+
+/-! ## digits, integer percentages, background-position -/
+
+theorem digitsVal_append (l : List Char) (c : Char) : digitsVal (l ++ [c]) = digitsVal l * 10 + (c.toNat - 48) := by
+  simp [digitsVal, List.foldl_append]
+
+theorem digitChar_props : ∀ d, d < 10 → isDigit (Nat.digitChar d) = true ∧ (Nat.digitChar d).toNat - 48 = d ∧
+    (Nat.digitChar d = '0' → d = 0) := by
+  decide
+
+theorem toDigits_val (n : Nat) : digitsVal (Nat.toDigits 10 n) = n := by
+  induction n using Nat.strongRecOn with
+  | _ n ih =>
+    rw [Nat.toDigits_eq_if (by decide)]
+    split
+    · rename_i h
+      simp [digitsVal, (digitChar_props n h).2.1]
+    · rename_i h
+      rw [digitsVal_append, ih (n / 10) (by omega), (digitChar_props (n % 10) (by omega)).2.1]
+      omega
+
+theorem toDigits_allDigit (n : Nat) : (Nat.toDigits 10 n).all isDigit = true := by
+  induction n using Nat.strongRecOn with
+  | _ n ih =>
+    rw [Nat.toDigits_eq_if (by decide)]
+    split
+    · rename_i h
+      simp [(digitChar_props n h).1]
+    · rename_i h
+      simp only [List.all_append, ih (n / 10) (by omega), List.all_cons, List.all_nil, Bool.and_true, Bool.true_and]
+      exact (digitChar_props (n % 10) (by omega)).1
+
+theorem toDigits_head_zero (n : Nat) (h : (Nat.toDigits 10 n).head? = some '0') : n = 0 := by
+  induction n using Nat.strongRecOn with
+  | _ n ih =>
+    rw [Nat.toDigits_eq_if (by decide)] at h
+    split at h
+    · rename_i hl
+      have h' : Nat.digitChar n = '0' := by simpa using h
+      exact (digitChar_props n hl).2.2 h'
+    · rename_i hl
+      have hne : Nat.toDigits 10 (n / 10) ≠ [] := Nat.toDigits_ne_nil
+      have hh : (Nat.toDigits 10 (n / 10) ++ [Nat.digitChar (n % 10)]).head? = (Nat.toDigits 10 (n / 10)).head? := by
+        cases hd : Nat.toDigits 10 (n / 10) with
+        | nil => exact absurd hd hne
+        | cons c r => rfl
+      rw [hh] at h
+      have := ih (n / 10) (by omega) h
+      omega
+
+theorem spanD_digits (ds rest : List Char) (h : ds.all isDigit = true) (hr : rest.head?.all (fun c => !isDigit c) = true) :
+    spanD (ds ++ rest) = (ds, rest) := by
+  have h1 : ∀ c ∈ ds, isDigit c = true := by simpa using h
+  have hrest : rest.takeWhile isDigit = [] ∧ rest.dropWhile isDigit = rest := by
+    cases rest with
+    | nil => simp
+    | cons c r =>
+      simp only [List.head?_cons, Option.all_some, Bool.not_eq_true'] at hr
+      simp [List.takeWhile, List.dropWhile, hr]
+  simp only [spanD]
+  rw [List.takeWhile_append_of_pos h1, List.dropWhile_append_of_pos h1, hrest.1, hrest.2, List.append_nil]
+
+theorem pow10_zero : pow10 0 = 1 := by decide +kernel
+
+theorem stripSign_digit (c : Char) (r : List Char) (hc : isDigit c = true) : stripSign (c :: r) = (false, [], c :: r) := by
+  have hc1 : c ≠ '-' := by intro e; subst e; simp [isDigit] at hc
+  have hc2 : c ≠ '+' := by intro e; subst e; simp [isDigit] at hc
+  unfold stripSign
+  split
+  · rename_i heq; simp at heq; exact absurd heq.1 hc1
+  · rename_i heq; simp at heq; exact absurd heq.1 hc2
+  · rfl
+
+theorem numVal_digits (neg : Bool) (ds : List Char) (h : ds.all isDigit = true) (hne : ds ≠ []) :
+    numVal ((if neg then ['-'] else []) ++ ds) =
+      some ((if neg then -1 else 1) * (digitsVal ds : Rat)) := by
+  have hsp : spanD ds = (ds, []) := by
+    have := spanD_digits ds [] h (by simp)
+    simpa using this
+  have hemp : ds.isEmpty = false := by simpa using hne
+  have hss : stripSign ((if neg then ['-'] else []) ++ ds) = (neg, (if neg then ['-'] else []), ds) := by
+    cases neg
+    · cases ds with
+      | nil => exact absurd rfl hne
+      | cons c r =>
+        have hc : isDigit c = true := by simp at h; exact h.1
+        simpa using stripSign_digit c r hc
+    · rfl
+  simp only [numVal, splitNumber, hss, hsp, fracPart, expPart, hemp, Bool.false_and, Bool.false_eq_true, if_false,
+    List.isEmpty_nil, Bool.not_true, Option.bind_some]
+  cases neg <;> simp [NumParts.val, pow10_zero]
+
+theorem spanNumber_digits_pct (neg : Bool) (ds : List Char) (h : ds.all isDigit = true) (hne : ds ≠ []) :
+    spanNumber ((if neg then ['-'] else []) ++ ds ++ ['%']) = ((if neg then ['-'] else []) ++ ds, ['%']) := by
+  have hsp : spanD (ds ++ ['%']) = (ds, ['%']) := spanD_digits ds ['%'] h (by decide)
+  have hss : stripSign ((if neg then ['-'] else []) ++ ds ++ ['%']) = (neg, (if neg then ['-'] else []), ds ++ ['%']) := by
+    cases neg
+    · cases ds with
+      | nil => exact absurd rfl hne
+      | cons c r =>
+        have hc : isDigit c = true := by simp at h; exact h.1
+        simpa using stripSign_digit c (r ++ ['%']) hc
+    · rfl
+  simp only [spanNumber, hss, hsp, fracPart, expPart]
+  simp
+
+theorem intDigits_eq (m : Int) : intDigits m = (if decide (m < 0) then ['-'] else []) ++ Nat.toDigits 10 m.natAbs := by
+  unfold intDigits natDigits
+  by_cases h : m < 0 <;> simp [h]
+
+theorem lex_int_pct (m : Int) : numOfLexeme (intDigits m ++ ['%']) = some (.percentage (m : Rat)) := by
+  have hall := toDigits_allDigit m.natAbs
+  have hne : Nat.toDigits 10 m.natAbs ≠ [] := Nat.toDigits_ne_nil
+  rw [intDigits_eq]
+  simp only [numOfLexeme, spanNumber_digits_pct _ _ hall hne]
+  have hv := numVal_digits (decide (m < 0)) _ hall hne
+  rw [toDigits_val] at hv
+  simp only [List.isEmpty_cons, Bool.false_eq_true, if_false, beq_self_eq_true, if_true, hv, Option.map_some]
+  congr 2
+  by_cases h : m < 0
+  · simp only [h, decide_true, if_true]
+    have hm : m = -(m.natAbs : Int) := by omega
+    have : (m : Rat) = -((m.natAbs : Nat) : Rat) := by
+      conv => lhs; rw [hm]
+      push_cast; rfl
+    rw [this]; grind
+  · simp only [h, decide_false, Bool.false_eq_true, if_false]
+    have hm : m = (m.natAbs : Int) := by omega
+    have : (m : Rat) = ((m.natAbs : Nat) : Rat) := by
+      conv => lhs; rw [hm]
+      push_cast; rfl
+    rw [this]; grind
+
+/-! ### background-position -/
+
+/-- contracts on an offset token (lexer + number minifier + `ParseInt`): a lexeme that starts with `0` denotes
+    zero; a percentage `ParseInt` reads completely has that integer value -/
+structure OffSound (o : Tok) : Prop where
+  zero : isZero o = true → offOf o = some ⟨0, .zero⟩
+  flip : ∀ n, flippable o = some n → offOf o = some ⟨(n : Rat), .zero⟩
+
+theorem flippable_tt (o : Tok) (n : Int) (h : flippable o = some n) : o.tt = .percentage := by
+  unfold flippable at h
+  split at h
+  · rename_i hc; simp only [Bool.and_eq_true, beq_iff_eq] at hc; exact hc.1
+  · exact absurd h (by simp)
+
+theorem offOf_pct_lexeme (t : Tok) (q : Rat) (htt : t.tt = .percentage ∨ t.tt = .number ∨ t.tt = .dimension)
+    (h : numOfLexeme t.data = some (.percentage q)) : offOf t = some ⟨q, .zero⟩ := by
+  have hn : numOf t = some (.percentage q) := by
+    rcases htt with e | e | e <;> simp [numOf, e, h]
+  rcases htt with e | e | e <;> simp [offOf, e, hn]
+
+theorem offOf_flipTok (o : Tok) (n : Int) (h : flippable o = some n) :
+    offOf (flipTok o n) = some ⟨100 - (n : Rat), .zero⟩ := by
+  have htt := flippable_tt o n h
+  have hl := lex_int_pct (100 - n)
+  have h1 : (flipTok o n).tt = .percentage := by
+    show (Tok.mk o.tt _ _).tt = _
+    exact htt
+  have := offOf_pct_lexeme (flipTok o n) _ (Or.inl h1) (by simpa [flipTok, Tok.data] using hl)
+  rw [this]
+
+theorem intDigits_head_zero (m : Int) (h : (intDigits m).head? = some '0') : m = 0 := by
+  rw [intDigits_eq] at h
+  by_cases hm : m < 0
+  · simp [hm] at h
+  · simp only [hm, decide_false, Bool.false_eq_true, if_false, List.nil_append] at h
+    have := toDigits_head_zero _ h
+    omega
+
+theorem zok_flipTok (o : Tok) (n : Int) (h : flippable o = some n) (hz : isZero (flipTok o n) = true) :
+    offOf (flipTok o n) = some ⟨0, .zero⟩ := by
+  rw [offOf_flipTok o n h]
+  have hh : (intDigits (100 - n) ++ ['%']).head? = some '0' := by
+    simp only [isZero, flipTok, Tok.tt, Tok.data, Bool.and_eq_true, beq_iff_eq] at hz
+    exact hz.2
+  have hne : intDigits (100 - n) ≠ [] := by
+    rw [intDigits_eq]; simp
+  have hh' : (intDigits (100 - n)).head? = some '0' := by
+    cases hd : intDigits (100 - n) with
+    | nil => exact absurd hd hne
+    | cons c r => rw [hd] at hh; simpa using hh
+  have := intDigits_head_zero _ hh'
+  have e : (n : Rat) = 100 := by
+    have : n = 100 := by omega
+    rw [this]; rfl
+  rw [e]
+  simp only [Option.some.injEq, Off.mk.injEq, and_true]
+  grind
+
+theorem offOf_consts : offOf tZero = some ⟨0, .zero⟩ ∧ offOf t100 = some ⟨100, .zero⟩ ∧ offOf t50 = some ⟨50, .zero⟩ ∧
+    offOf tNum50 = some ⟨50, .zero⟩ ∧ pkwOf tZero = none ∧ pkwOf t100 = none ∧ pkwOf t50 = none ∧ pkwOf tNum50 = none := by
+  decide +kernel
+
+theorem pkwOf_tt (t : Tok) (k : PKw) (h : pkwOf t = some k) : t.tt = .ident := by
+  unfold pkwOf kwOf at h
+  by_cases ht : t.tt = .ident
+  · exact ht
+  · simp [ht] at h
+
+theorem pkwOf_mk_left (tt : TT) (args : List Tok) (h : tt = .ident) : pkwOf (Tok.mk tt (S "left") args) = some .left := by
+  subst h; rfl
+theorem pkwOf_mk_top (tt : TT) (args : List Tok) (h : tt = .ident) : pkwOf (Tok.mk tt (S "top") args) = some .top := by
+  subst h; rfl
+
+theorem pkwOf_none_of_tt (t : Tok) (h : t.tt ≠ .ident) : pkwOf t = none := by
+  simp [pkwOf, kwOf, h]
+
+theorem dropZero_some (o t : Tok) (h : dropZero o = some t) : t = o ∧ isZero o = false := by
+  unfold dropZero at h
+  split at h
+  · exact absurd h (by simp)
+  · rename_i hz
+    exact ⟨(Option.some.inj h).symm, by simpa using hz⟩
+
+theorem dropZero_none (o : Tok) (h : dropZero o = none) : isZero o = true := by
+  unfold dropZero at h
+  split at h
+  · assumption
+  · exact absurd h (by simp)
+
+theorem flip_zero : (⟨0, LenPart.zero⟩ : Off).flip = pct 100 := by decide +kernel
+theorem flip_pct (n : Rat) : (⟨n, LenPart.zero⟩ : Off).flip = ⟨100 - n, .zero⟩ := rfl
+
+/-- facts about the rewrite of one keyword group -/
+structure GroupFacts (k : PKw) (kt : Tok) (o : Option Tok) : Prop where
+  val : ∀ t, (resolveAxis k kt (o.bind dropZero)).1 = .val t →
+    k ≠ .center ∧ pkwOf t = none ∧ (isZero t = true → offOf t = some ⟨0, .zero⟩) ∧
+    (∀ x, axisH k o = some x → offOf t = some x) ∧ (∀ y, axisV k o = some y → offOf t = some y)
+  center : (resolveAxis k kt (o.bind dropZero)).1 = .center → k = .center ∧ o = none
+  keep : ∃ k' kt' o', (resolveAxis k kt (o.bind dropZero)).2 = kt' :: Option.toList o' ∧ pkwOf kt' = some k' ∧
+    (∀ t ∈ o', pkwOf t = none) ∧ axisH k' o' = axisH k o ∧ axisV k' o' = axisV k o
+
+theorem groupFacts (k : PKw) (kt : Tok) (o : Option Tok) (hk : pkwOf kt = some k)
+    (ho : ∀ t ∈ o, pkwOf t = none ∧ OffSound t) (hc : k = .center → o = none) : GroupFacts k kt o := by
+  have hkt := pkwOf_tt kt k hk
+  have hc0 := offOf_consts
+  cases o with
+  | none =>
+    cases k <;>
+      refine ⟨?_, ?_, ⟨_, kt, none, rfl, hk, by simp, rfl, rfl⟩⟩ <;>
+      simp [resolveAxis, axisH, axisV, horiz, vert, hc0, isZero, tZero, t100, tNum, tPct, Tok.tt, Tok.data] <;>
+      (try decide +kernel)
+  | some t =>
+    obtain ⟨htk, hs⟩ := ho t rfl
+    have hkc : k ≠ .center := by intro e; have := hc e; simp at this
+    cases hz : dropZero t with
+    | none =>
+      have hz' := dropZero_none t hz
+      have h0 := hs.zero hz'
+      cases k <;> first | exact absurd rfl hkc | skip
+      all_goals
+        refine ⟨?_, ?_, ⟨_, kt, none, by simp [resolveAxis, hz], hk, by simp, ?_, ?_⟩⟩ <;>
+        simp [resolveAxis, hz, axisH, axisV, horiz, vert, h0, hc0, flip_zero, isZero, tZero, t100, tNum, tPct, Tok.tt, Tok.data] <;>
+        (try decide +kernel)
+    | some t' =>
+      obtain ⟨e, hnz⟩ := dropZero_some t t' hz
+      subst e
+      cases k <;> first | exact absurd rfl hkc | skip
+      · -- left
+        refine ⟨?_, ?_, ⟨_, kt, some t', by simp [resolveAxis, hz], hk, by simp [htk], rfl, rfl⟩⟩
+        · intro t0 h0
+          simp only [Option.bind_some, hz, resolveAxis] at h0
+          have := AxRes.val.inj h0; subst this
+          refine ⟨by simp, htk, by simp [hnz], ?_, ?_⟩
+          · intro x hx; simp only [axisH] at hx
+            cases ho : offOf t' with
+            | none => simp [ho] at hx
+            | some v => simp [ho, horiz] at hx; rw [hx]
+          · intro y hy; simp only [axisV] at hy
+            cases ho : offOf t' with
+            | none => simp [ho] at hy
+            | some v => simp [ho, vert] at hy
+        · simp [resolveAxis, hz]
+      · -- right
+        cases hf : flippable t' with
+        | none =>
+          refine ⟨?_, ?_, ⟨_, kt, some t', by simp [resolveAxis, hz, hf], hk, by simp [htk], rfl, rfl⟩⟩ <;>
+            simp [resolveAxis, hz, hf]
+        | some n =>
+          have hoff := hs.flip n hf
+          have hfo := offOf_flipTok t' n hf
+          have hftt : (flipTok t' n).tt ≠ .ident := by
+            have e : (flipTok t' n).tt = t'.tt := rfl
+            rw [e, flippable_tt t' n hf]; simp
+          have hfk := pkwOf_none_of_tt _ hftt
+          refine ⟨?_, ?_, ⟨.left, Tok.mk kt.tt (S "left") kt.args, some (flipTok t' n), by simp [resolveAxis, hz, hf],
+            pkwOf_mk_left _ _ hkt, by simp [hfk], ?_, ?_⟩⟩
+          · intro t0 h0
+            simp only [Option.bind_some, hz, resolveAxis, hf] at h0
+            have := AxRes.val.inj h0; subst this
+            refine ⟨by simp, hfk, zok_flipTok t' n hf, ?_, ?_⟩
+            · intro x hx
+              simp only [axisH, hoff, Option.bind_some, horiz, flip_pct, Option.some.injEq] at hx
+              rw [hfo, hx]
+            · intro y hy; simp [axisV, hoff, vert] at hy
+          · simp [resolveAxis, hz, hf]
+          · simp [axisH, hoff, hfo, horiz, flip_pct]
+          · simp [axisV, hoff, hfo, vert]
+      · -- top
+        refine ⟨?_, ?_, ⟨_, kt, some t', by simp [resolveAxis, hz], hk, by simp [htk], rfl, rfl⟩⟩
+        · intro t0 h0
+          simp only [Option.bind_some, hz, resolveAxis] at h0
+          have := AxRes.val.inj h0; subst this
+          refine ⟨by simp, htk, by simp [hnz], ?_, ?_⟩
+          · intro x hx; simp only [axisH] at hx
+            cases ho : offOf t' with
+            | none => simp [ho] at hx
+            | some v => simp [ho, horiz] at hx
+          · intro y hy; simp only [axisV] at hy
+            cases ho : offOf t' with
+            | none => simp [ho] at hy
+            | some v => simp [ho, vert] at hy; rw [hy]
+        · simp [resolveAxis, hz]
+      · -- bottom
+        cases hf : flippable t' with
+        | none =>
+          refine ⟨?_, ?_, ⟨_, kt, some t', by simp [resolveAxis, hz, hf], hk, by simp [htk], rfl, rfl⟩⟩ <;>
+            simp [resolveAxis, hz, hf]
+        | some n =>
+          have hoff := hs.flip n hf
+          have hfo := offOf_flipTok t' n hf
+          have hftt : (flipTok t' n).tt ≠ .ident := by
+            have e : (flipTok t' n).tt = t'.tt := rfl
+            rw [e, flippable_tt t' n hf]; simp
+          have hfk := pkwOf_none_of_tt _ hftt
+          refine ⟨?_, ?_, ⟨.top, Tok.mk kt.tt (S "top") kt.args, some (flipTok t' n), by simp [resolveAxis, hz, hf],
+            pkwOf_mk_top _ _ hkt, by simp [hfk], ?_, ?_⟩⟩
+          · intro t0 h0
+            simp only [Option.bind_some, hz, resolveAxis, hf] at h0
+            have := AxRes.val.inj h0; subst this
+            refine ⟨by simp, hfk, zok_flipTok t' n hf, ?_, ?_⟩
+            · intro x hx; simp [axisH, hoff, horiz] at hx
+            · intro y hy
+              simp only [axisV, hoff, Option.bind_some, vert, flip_pct, Option.some.injEq] at hy
+              rw [hfo, hy]
+          · simp [resolveAxis, hz, hf]
+          · simp [axisH, hoff, hfo, horiz]
+          · simp [axisV, hoff, hfo, vert, flip_pct]
+
+theorem offOf_pctZero (t : Tok) (hz : isZero t = true → offOf t = some ⟨0, .zero⟩) : offOf (pctZero t) = offOf t := by
+  unfold pctZero
+  split
+  · rename_i hc
+    simp only [Bool.and_eq_true, beq_iff_eq] at hc
+    have : isZero t = true := by simp [isZero, hc.1, hc.2]
+    rw [hz this, offOf_consts.1]
+  · rfl
+
+theorem pkwOf_pctZero (t : Tok) (h : pkwOf t = none) : pkwOf (pctZero t) = none := by
+  unfold pctZero
+  split
+  · exact offOf_consts.2.2.2.2.1
+  · exact h
+
+theorem position_vals2 (a b : Tok) (ha : pkwOf a = none) (hb : pkwOf b = none) :
+    position [a, b] = both (offOf a) (offOf b) := by
+  simp [position, ha, hb]
+
+theorem position_val1 (a : Tok) (ha : pkwOf a = none) : position [a] = (offOf a).map fun o => (o, pct 50) := by
+  simp [position, ha]
+
+theorem offOf_50 (y : Tok) (h1 : y.tt = .percentage) (h2 : y.data = S "50%") : offOf y = some (pct 50) := by
+  obtain ⟨tt, data, args⟩ := y
+  simp only [Tok.tt, Tok.data] at h1 h2
+  subst h1 h2
+  have : numOfLexeme (S "50%") = some (.percentage 50) := by decide +kernel
+  exact offOf_pct_lexeme _ 50 (Or.inl rfl) this
+
+theorem finishVals2 (a b : Tok) (ha : pkwOf a = none) (hb : pkwOf b = none)
+    (za : isZero a = true → offOf a = some ⟨0, .zero⟩) (zb : isZero b = true → offOf b = some ⟨0, .zero⟩) :
+    position (finishVals [a, b]) = both (offOf a) (offOf b) := by
+  simp only [finishVals]
+  split
+  · rename_i hc
+    simp only [Bool.and_eq_true, beq_iff_eq] at hc
+    rw [position_val1 _ (pkwOf_pctZero a ha), offOf_pctZero a za, offOf_50 b hc.1 hc.2]
+    cases offOf a <;> rfl
+  · rw [position_vals2 _ _ (pkwOf_pctZero a ha) (pkwOf_pctZero b hb), offOf_pctZero a za, offOf_pctZero b zb]
+
+theorem finishVals1 (a : Tok) (ha : pkwOf a = none) (za : isZero a = true → offOf a = some ⟨0, .zero⟩) :
+    position (finishVals [a]) = both (offOf a) (some (pct 50)) := by
+  simp only [finishVals]
+  rw [position_val1 _ (pkwOf_pctZero a ha), offOf_pctZero a za]
+  cases offOf a <;> rfl
+
+/-- a layer in keyword form denotes what its two groups denote -/
+theorem position_groups (k1 k2 : PKw) (kt1 kt2 : Tok) (o1 o2 : Option Tok)
+    (h1 : pkwOf kt1 = some k1) (h2 : pkwOf kt2 = some k2)
+    (g1 : ∀ t ∈ o1, pkwOf t = none) (g2 : ∀ t ∈ o2, pkwOf t = none) :
+    position ((kt1 :: o1.toList) ++ (kt2 :: o2.toList)) = groups2 k1 o1 k2 o2 := by
+  cases o1 with
+  | none =>
+    cases o2 with
+    | none => simp [position, h1, h2]
+    | some b => simp [position, h1, h2, g2 b rfl]
+  | some a =>
+    cases o2 with
+    | none => simp [position, h1, h2, g1 a rfl]
+    | some b => simp [position, h1, h2, g1 a rfl, g2 b rfl]
+
+theorem axisH_vert_none (k : PKw) (o : Option Tok) (h : isVerticalKw k = true) : axisH k o = none := by
+  cases k <;> simp [isVerticalKw] at h <;> cases o <;> simp [axisH, horiz] <;>
+    (intro a _; cases a; rfl)
+theorem axisV_horiz_none (k : PKw) (o : Option Tok) (h : isHorizontalKw k = true) : axisV k o = none := by
+  cases k <;> simp [isHorizontalKw] at h <;> cases o <;> simp [axisV, vert] <;>
+    (intro a _; cases a; rfl)
+
+theorem not_h_not_center (k : PKw) (h1 : isHorizontalKw k = false) (h2 : k ≠ .center) : isVerticalKw k = true := by
+  cases k <;> simp_all [isHorizontalKw, isVerticalKw]
+theorem not_v_not_center (k : PKw) (h1 : isVerticalKw k = false) (h2 : k ≠ .center) : isHorizontalKw k = true := by
+  cases k <;> simp_all [isHorizontalKw, isVerticalKw]
+
+theorem both_some {x y : Option Off} {p : Off × Off} (h : both x y = some p) : x = some p.1 ∧ y = some p.2 := by
+  cases x <;> cases y <;> simp [both] at h
+  subst h; exact ⟨rfl, rfl⟩
+
+theorem axis_center_some (t : Tok) : axisH .center (some t) = none ∧ axisV .center (some t) = none := by
+  constructor <;> simp [axisH, axisV, horiz, vert]
+
+theorem both_none_right (x : Option Off) : both x none = none := by cases x <;> rfl
+theorem both_none_left (y : Option Off) : both none y = none := rfl
+
+theorem center_no_offset (k1 k2 : PKw) (o1 o2 : Option Tok) (p : Off × Off)
+    (hv : groups2 k1 o1 k2 o2 = some p) : (k1 = .center → o1 = none) ∧ (k2 = .center → o2 = none) := by
+  constructor
+  · intro e; subst e
+    cases o1 with
+    | none => rfl
+    | some t =>
+      exfalso
+      simp [groups2, (axis_center_some t).1, (axis_center_some t).2, both_none_right, both_none_left, orElse'] at hv
+  · intro e; subst e
+    cases o2 with
+    | none => rfl
+    | some t =>
+      exfalso
+      simp [groups2, (axis_center_some t).1, (axis_center_some t).2, both_none_right, both_none_left, orElse'] at hv
+
+/-- the two readings of a pair of groups; `p` comes from the first that is defined -/
+theorem groups2_cases (k1 k2 : PKw) (o1 o2 : Option Tok) (p : Off × Off) (hv : groups2 k1 o1 k2 o2 = some p) :
+    (axisH k1 o1 = some p.1 ∧ axisV k2 o2 = some p.2) ∨ (axisH k2 o2 = some p.1 ∧ axisV k1 o1 = some p.2) := by
+  simp only [groups2, orElse'] at hv
+  cases hA : both (axisH k1 o1) (axisV k2 o2) with
+  | some q =>
+    simp only [hA] at hv
+    have := Option.some.inj hv; subst this
+    exact Or.inl (both_some hA)
+  | none =>
+    simp only [hA] at hv
+    exact Or.inr (both_some hv)
+
+theorem assemble_ok (k1 k2 : PKw) (kt1 kt2 : Tok) (o1 o2 : Option Tok) (p : Off × Off)
+    (h1 : pkwOf kt1 = some k1) (h2 : pkwOf kt2 = some k2)
+    (s1 : ∀ t ∈ o1, pkwOf t = none ∧ OffSound t) (s2 : ∀ t ∈ o2, pkwOf t = none ∧ OffSound t)
+    (hv : groups2 k1 o1 k2 o2 = some p) :
+    position (assemble k1 kt1 (o1.bind dropZero) k2 kt2 (o2.bind dropZero)) = some p := by
+  obtain ⟨c1, c2⟩ := center_no_offset k1 k2 o1 o2 p hv
+  have G1 := groupFacts k1 kt1 o1 h1 s1 c1
+  have G2 := groupFacts k2 kt2 o2 h2 s2 c2
+  obtain ⟨k1', kt1', o1', hk1, hp1, hg1, hH1, hV1⟩ := G1.keep
+  obtain ⟨k2', kt2', o2', hk2, hp2, hg2, hH2, hV2⟩ := G2.keep
+  -- the keyword form always denotes the same position
+  have hkeep : position ((resolveAxis k1 kt1 (o1.bind dropZero)).2 ++ (resolveAxis k2 kt2 (o2.bind dropZero)).2) = some p := by
+    rw [hk1, hk2, position_groups k1' k2' kt1' kt2' o1' o2' hp1 hp2 hg1 hg2]
+    simp only [groups2, hH1, hV1, hH2, hV2]
+    exact hv
+  have hcase := groups2_cases k1 k2 o1 o2 p hv
+  have hcH : axisH .center none = some (pct 50) := rfl
+  have hcV : axisV .center none = some (pct 50) := rfl
+  simp only [assemble]
+  by_cases hf : (isHorizontalKw k1 || isVerticalKw k2) = true
+  · -- the first group is the horizontal one
+    simp only [hf, if_true]
+    have hA : axisH k1 o1 = some p.1 ∧ axisV k2 o2 = some p.2 := by
+      rcases hcase with h | h
+      · exact h
+      · exfalso
+        rcases Bool.or_eq_true _ _ ▸ hf with e | e
+        · rw [axisV_horiz_none k1 o1 e] at h; exact absurd h.2 (by simp)
+        · rw [axisH_vert_none k2 o2 e] at h; exact absurd h.1 (by simp)
+    cases r1 : (resolveAxis k1 kt1 (o1.bind dropZero)).1 with
+    | stuck => cases r2 : (resolveAxis k2 kt2 (o2.bind dropZero)).1 <;> exact hkeep
+    | center =>
+      obtain ⟨e1, e1'⟩ := G1.center r1
+      subst e1 e1'
+      cases r2 : (resolveAxis k2 kt2 (o2.bind dropZero)).1 with
+      | stuck => exact hkeep
+      | center => exact hkeep
+      | val b =>
+        obtain ⟨hb1, hb2, hb3, hb4, hb5⟩ := G2.val b r2
+        show position (finishVals [tNum50, b]) = some p
+        rw [finishVals2 _ _ offOf_consts.2.2.2.2.2.2.2 hb2 (by decide) hb3, offOf_consts.2.2.2.1, hb5 _ hA.2]
+        rw [hcH] at hA
+        have := Option.some.inj hA.1
+        simp only [both]
+        rw [show (⟨50, LenPart.zero⟩ : Off) = pct 50 from rfl, this]
+    | val a =>
+      obtain ⟨ha1, ha2, ha3, ha4, ha5⟩ := G1.val a r1
+      cases r2 : (resolveAxis k2 kt2 (o2.bind dropZero)).1 with
+      | stuck => exact hkeep
+      | center =>
+        obtain ⟨e2, e2'⟩ := G2.center r2
+        subst e2 e2'
+        show position (finishVals [a]) = some p
+        rw [finishVals1 _ ha2 ha3, ha4 _ hA.1]
+        rw [hcV] at hA
+        have := Option.some.inj hA.2
+        simp only [both, this]
+      | val b =>
+        obtain ⟨hb1, hb2, hb3, hb4, hb5⟩ := G2.val b r2
+        show position (finishVals [a, b]) = some p
+        rw [finishVals2 _ _ ha2 hb2 ha3 hb3, ha4 _ hA.1, hb5 _ hA.2]
+        rfl
+  · -- the first group is the vertical one (or both are `center`)
+    have hf' : (isHorizontalKw k1 || isVerticalKw k2) = false := by simpa using hf
+    simp only [hf', Bool.false_eq_true, if_false]
+    obtain ⟨nh1, nv2⟩ := Bool.or_eq_false_iff.mp hf'
+    cases r1 : (resolveAxis k1 kt1 (o1.bind dropZero)).1 with
+    | stuck => cases r2 : (resolveAxis k2 kt2 (o2.bind dropZero)).1 <;> exact hkeep
+    | center =>
+      obtain ⟨e1, e1'⟩ := G1.center r1
+      subst e1 e1'
+      cases r2 : (resolveAxis k2 kt2 (o2.bind dropZero)).1 with
+      | stuck => exact hkeep
+      | center => exact hkeep
+      | val b =>
+        obtain ⟨hb1, hb2, hb3, hb4, hb5⟩ := G2.val b r2
+        have hh2 := not_v_not_center k2 nv2 hb1
+        have hB : axisH k2 o2 = some p.1 ∧ axisV .center none = some p.2 := by
+          rcases hcase with h | h
+          · rw [axisV_horiz_none k2 o2 hh2] at h; exact absurd h.2 (by simp)
+          · exact h
+        show position (finishVals [b]) = some p
+        rw [finishVals1 _ hb2 hb3, hb4 _ hB.1]
+        rw [hcV] at hB
+        have := Option.some.inj hB.2
+        simp only [both, this]
+    | val a =>
+      obtain ⟨ha1, ha2, ha3, ha4, ha5⟩ := G1.val a r1
+      have hv1 := not_h_not_center k1 nh1 ha1
+      have hB : axisH k2 o2 = some p.1 ∧ axisV k1 o1 = some p.2 := by
+        rcases hcase with h | h
+        · rw [axisH_vert_none k1 o1 hv1] at h; exact absurd h.1 (by simp)
+        · exact h
+      cases r2 : (resolveAxis k2 kt2 (o2.bind dropZero)).1 with
+      | stuck => exact hkeep
+      | center =>
+        obtain ⟨e2, e2'⟩ := G2.center r2
+        subst e2 e2'
+        show position (finishVals [tNum50, a]) = some p
+        rw [finishVals2 _ _ offOf_consts.2.2.2.2.2.2.2 ha2 (by decide) ha3, offOf_consts.2.2.2.1, ha5 _ hB.2]
+        rw [hcH] at hB
+        have := Option.some.inj hB.1
+        simp only [both]
+        rw [show (⟨50, LenPart.zero⟩ : Off) = pct 50 from rfl, this]
+      | val b =>
+        obtain ⟨hb1, hb2, hb3, hb4, hb5⟩ := G2.val b r2
+        show position (finishVals [b, a]) = some p
+        rw [finishVals2 _ _ hb2 ha2 hb3 ha3, hb4 _ hB.1, ha5 _ hB.2]
+        rfl
+
+/-- the second value of a two-value position: `50%` is dropped, a `0%`-like percentage becomes `0` -/
+theorem second_lp (x b : Tok) (hx : pkwOf x = none) (hb : pkwOf b = none)
+    (zx : isZero x = true → offOf x = some ⟨0, .zero⟩) (zb : isZero b = true → offOf b = some ⟨0, .zero⟩) :
+    position ([pctZero x] ++ (if pkwOf b == none && b.tt == .percentage && b.data == S "50%" then none else kwValue false b).toList)
+      = both (offOf x) (offOf b) := by
+  have hfin := finishVals2 x b hx hb zx zb
+  simp only [finishVals] at hfin
+  simp only [hb, beq_self_eq_true, Bool.true_and, kwValue]
+  split at hfin
+  · rename_i hc; simp only [hc, if_true, Option.toList_none, List.append_nil]; exact hfin
+  · rename_i hc; simp only [hc, Bool.false_eq_true, if_false, Option.toList_some]; exact hfin
+
+
+theorem bgPosLayers_noComma (cur vs : List Tok) (h : ∀ t ∈ vs, isComma t = false) :
+    bgPosLayers cur vs = if (cur.reverse ++ vs).isEmpty then [] else (bgPosLayer (cur.reverse ++ vs)).1 := by
+  induction vs generalizing cur with
+  | nil => simp [bgPosLayers]
+  | cons t r ih =>
+    have ht := h t List.mem_cons_self
+    simp only [bgPosLayers, ht, Bool.false_eq_true, if_false]
+    rw [ih (t :: cur) (fun x hx => h x (List.mem_cons_of_mem _ hx))]
+    simp
 
 
 end Verif.Proofs.Css
